@@ -246,6 +246,7 @@ def _events(rng, n, keys_pools, base, unit, contiguous):
     base, unit, zone = maybe_zone(rng, base, unit)
     specs = []
     pos = 0
+    huge = not contiguous and rng.random() < 0.03
     for i in range(n):
         data = {}
         for k, pool in keys_pools.items():
@@ -259,6 +260,9 @@ def _events(rng, n, keys_pools, base, unit, contiguous):
             rng.shuffle(items)
             data = dict(items)
         dur = rng.choice([0, 1, 1, 2, 5, 60]) * unit + rng.choice([0, 0, 0, 1, 999])
+        if huge:
+            # durations of decades with a microsecond remainder: totals beyond what a float of seconds holds exactly
+            dur = rng.choice([10, 30, 90]) * 31_557_600 * 10**6 + rng.choice([1, 7, 999, 500_001])
         if not contiguous and rng.random() < 0.04:
             dur = -rng.choice([1, 1000, unit, 3 * unit])      # a negative duration (legal for an Event; clock adjustments produce them)
         ts = base + pos
